@@ -458,3 +458,105 @@ Proof.
 Qed.
 
 End Final.
+
+(* ---------------- sessions: streams of one factory are independent ---------------- *)
+
+Section Session.
+
+Variable decomp : enc -> bytes -> option bytes.
+Variable comp : enc -> bytes -> bytes.
+Variable v : variant.
+
+Lemma op_step_total p o : op_step decomp comp v p o <> None.
+Proof.
+  destruct o as [d hs es|d b es]; cbn [op_step].
+  - destruct (enabled (if enabled p then p else if is_grpc hs then set_enabled p else p)); [|discriminate].
+    destruct (select_enc _ hs); discriminate.
+  - destruct (enabled p); [|discriminate].
+    destruct (adapter_data decomp v (get_enc d p) (get_ad d p) b es) eqn:H; try discriminate.
+    exfalso. exact (adapter_data_fuel _ _ _ _ _ _ H).
+Qed.
+
+Lemma upd_same k x ss : upd k x ss k = x.
+Proof. unfold upd. now rewrite Nat.eqb_refl. Qed.
+
+Lemma upd_other k x ss j : j <> k -> upd k x ss j = ss j.
+Proof. intros H. unfold upd. apply Nat.eqb_neq in H. now rewrite H. Qed.
+
+Lemma outs_of_cons_other i k out outs : k <> i -> outs_of i ((k, out) :: outs) = outs_of i outs.
+Proof. intros H. unfold outs_of. cbn [filter fst]. apply Nat.eqb_neq in H. now rewrite H. Qed.
+
+Lemma ops_of_cons_other i k o r : k <> i -> ops_of i ((k, o) :: r) = ops_of i r.
+Proof. intros H. unfold ops_of. cbn [filter fst]. apply Nat.eqb_neq in H. now rewrite H. Qed.
+
+Lemma outs_of_cons_same i out outs : outs_of i ((i, out) :: outs) = out :: outs_of i outs.
+Proof. unfold outs_of. cbn [filter fst]. now rewrite Nat.eqb_refl. Qed.
+
+Lemma ops_of_cons_same i o r : ops_of i ((i, o) :: r) = o :: ops_of i r.
+Proof. unfold ops_of. cbn [filter fst]. now rewrite Nat.eqb_refl. Qed.
+
+Lemma session_total : forall sops ss, run_session decomp comp v ss sops <> None.
+Proof.
+  induction sops as [|[k o] r IH]; intros ss; cbn [run_session]; [discriminate|].
+  destruct (snd (ss k)); [apply IH|].
+  destruct (op_step decomp comp v (fst (ss k)) o) as [[[p1 out] cont]|] eqn:Hs;
+    [|exfalso; exact (op_step_total _ _ Hs)].
+  specialize (IH (upd k (p1, negb cont) ss)).
+  destruct (run_session decomp comp v (upd k (p1, negb cont) ss) r); [discriminate|congruence].
+Qed.
+
+Lemma stopped_no_outs : forall sops ss outs i,
+  snd (ss i) = true -> run_session decomp comp v ss sops = Some outs -> outs_of i outs = [].
+Proof.
+  induction sops as [|[k o] r IH]; intros ss outs i Hi Hrun; cbn [run_session] in Hrun.
+  - now injection Hrun as <-.
+  - destruct (snd (ss k)) eqn:Hk; [exact (IH ss outs i Hi Hrun)|].
+    destruct (op_step decomp comp v (fst (ss k)) o) as [[[p1 out] cont]|]; [|discriminate].
+    destruct (run_session decomp comp v (upd k (p1, negb cont) ss) r) as [outs'|] eqn:Hr; [|discriminate].
+    injection Hrun as <-.
+    assert (Hne : k <> i) by (intros ->; congruence).
+    rewrite outs_of_cons_other by exact Hne.
+    apply (IH _ _ i) in Hr; [exact Hr|]. rewrite upd_other by congruence. exact Hi.
+Qed.
+
+(* What stream [i] experiences inside any interleaving is exactly the run of
+   its own ops alone. *)
+Theorem session_projection : forall sops ss outs i,
+  snd (ss i) = false -> run_session decomp comp v ss sops = Some outs ->
+  run_ops decomp comp v (fst (ss i)) (ops_of i sops) = Some (outs_of i outs).
+Proof.
+  induction sops as [|[k o] r IH]; intros ss outs i Hi Hrun; cbn [run_session] in Hrun.
+  - injection Hrun as <-. reflexivity.
+  - destruct (snd (ss k)) eqn:Hk.
+    + assert (Hne : k <> i) by (intros ->; congruence).
+      rewrite ops_of_cons_other by exact Hne. exact (IH ss outs i Hi Hrun).
+    + destruct (op_step decomp comp v (fst (ss k)) o) as [[[p1 out] cont]|] eqn:Hs; [|discriminate].
+      destruct (run_session decomp comp v (upd k (p1, negb cont) ss) r) as [outs'|] eqn:Hr; [|discriminate].
+      injection Hrun as <-.
+      destruct (Nat.eq_dec k i) as [->|Hne].
+      * rewrite ops_of_cons_same, outs_of_cons_same. cbn [run_ops]. rewrite Hs.
+        destruct cont; cbn [negb] in Hr.
+        -- pose proof (IH (upd i (p1, false) ss) outs' i) as IH'.
+           rewrite upd_same in IH'. cbn [fst snd] in IH'. now rewrite IH'.
+        -- pose proof (stopped_no_outs r (upd i (p1, true) ss) outs' i) as Hno.
+           rewrite upd_same in Hno. cbn [snd] in Hno. now rewrite Hno.
+      * rewrite ops_of_cons_other, outs_of_cons_other by exact Hne.
+        specialize (IH (upd k (p1, negb cont) ss) outs' i).
+        rewrite upd_other in IH by congruence. now apply IH.
+Qed.
+
+(* Non-interference: two sessions that agree on stream [i]'s own HEADERS and
+   DATA show stream [i] the same calls, whatever the other streams do and
+   however the frames are interleaved. *)
+Theorem streams_independent sops sops' outs outs' i :
+  run_session decomp comp v sess0 sops = Some outs ->
+  run_session decomp comp v sess0 sops' = Some outs' ->
+  ops_of i sops = ops_of i sops' -> outs_of i outs = outs_of i outs'.
+Proof.
+  intros H1 H2 Heq.
+  apply (session_projection _ _ _ i) in H1; [|reflexivity].
+  apply (session_projection _ _ _ i) in H2; [|reflexivity].
+  rewrite Heq in H1. congruence.
+Qed.
+
+End Session.
